@@ -68,19 +68,30 @@ Routes == IF Full THEN {<<"call", "dotted">>, <<"call", "dotless">>, <<"override
 
 \* ctxend = 1: the context of the evaluation ends WHILE THE ARGUMENTS ARE EVALUATED (the last argument expression,
 \* whose value is nil, cancels it): the contract speaks about counts and types only, so the outcome is the same
+\* METHOD EXPRESSIONS bound with Call: (*BinderStore).Bm_Ptr_Get and BinderStore.Bm_Val_Get are functions whose first
+\* parameter is the receiver; they are registered under the METHOD's hyphenated lower-case name and take the receiver
+\* (supplied by the harness) plus one argument.  Encoded as the pseudo-shapes ty = 6 / 7 (nf = 1 counts the argument
+\* after the receiver).
+MethodShapes == {[ctx |-> 0, nf |-> 1, var |-> 0, nres |-> 2, ty |-> t] : t \in {6, 7}}
+IsMethod(s) == s.ty >= 6
+MethodFn(s) == IF s.ty = 6 THEN "bm_ptr_get" ELSE "bm_val_get"
+MethodLisp(s) == IF s.ty = 6 THEN "bm-ptr-get" ELSE "bm-val-get"
+
 VARIABLES sh, b, pat, n, mode, route, ph, ctxend
 vars == <<sh, b, pat, n, mode, route, ph, ctxend>>
-Init == /\ ph = 0 /\ sh \in Shapes
+Init == /\ ph = 0 /\ sh \in Shapes \cup MethodShapes
         /\ b \in (IF sh.var = 1 THEN 1..Len(Bounds) ELSE {1})
         /\ n \in 0..5 /\ pat \in 1..7 /\ (n = 0 => pat = 1)
         /\ route \in Routes
-        /\ mode \in (IF pat = 1 /\ route[1] = "call" /\ route[2] = "dotted" THEN 1..5 ELSE {1})
+        /\ (IsMethod(sh) => n <= 2 /\ pat \in {1, 2} /\ route[1] = "call")
+        \* (the override names hold a percent sign: a format verb to anything that builds messages with them)
+        /\ mode \in (IF pat = 1 /\ ~IsMethod(sh) /\ (route = <<"call", "dotted">> \/ (route[1] = "override" /\ sh.nres = 2)) THEN 1..5 ELSE {1})
         /\ ctxend \in {0, 1} /\ (ctxend = 1 => n >= 1 /\ pat = 2 /\ mode = 1)
 
 Next == /\ ph = 0 /\ ph' = 1 /\ UNCHANGED <<sh, b, pat, n, mode, route, ctxend>>
         /\ LET args == Pattern(pat, n)
                bounds == Bounds[b]
-               out == Contract(sh, bounds, args)
+               out == IF IsMethod(sh) THEN (IF n = 1 THEN "invoke" ELSE "error") ELSE Contract(sh, bounds, args)
                md == Modes[mode]
                \* what the caller gets when the function IS invoked
                res == CASE md = "ok" -> (IF sh.nres = 2 THEN "value" ELSE "nil")
@@ -88,11 +99,12 @@ Next == /\ ph = 0 /\ ph' = 1 /\ UNCHANGED <<sh, b, pat, n, mode, route, ctxend>>
                         [] md = "panic-err" -> "panic-error"
                         [] md = "panic-str" -> "panic-value"
                         [] md = "panic-lisperr" -> "panic-error"
-               c == [kind |-> "binder", tag |-> Typings[sh.ty], fn |-> ShapeName(sh),
-                     name |-> IF route[1] = "call" THEN LispName(sh) ELSE "ovr-" \o LispName(sh),
+               c == [kind |-> "binder", tag |-> IF IsMethod(sh) THEN "method" ELSE Typings[sh.ty],
+                     fn |-> IF IsMethod(sh) THEN MethodFn(sh) ELSE ShapeName(sh),
+                     name |-> IF IsMethod(sh) THEN MethodLisp(sh) ELSE IF route[1] = "call" THEN LispName(sh) ELSE "ovr%d-" \o LispName(sh),
                      entry |-> route[1], path |-> route[2], bounds |-> bounds, args |-> args, mode |-> md,
                      ctx_expected |-> sh.ctx, expect |-> out, result |-> res, ctxend |-> ctxend,
-                     src |-> ShapeName(sh) \o " " \o ToString(bounds) \o " n=" \o ToString(n) \o " p" \o ToString(pat) \o " " \o md \o (IF ctxend = 1 THEN " ctxend" ELSE "")]
+                     src |-> (IF IsMethod(sh) THEN MethodFn(sh) ELSE ShapeName(sh)) \o " " \o ToString(bounds) \o " n=" \o ToString(n) \o " p" \o ToString(pat) \o " " \o md \o (IF ctxend = 1 THEN " ctxend" ELSE "")]
            IN PrintT("CASE " \o ToJson(c))
 Spec == Init /\ [][Next]_vars
 =============================================================================
